@@ -536,6 +536,14 @@ func genAuthPlan(r *rand.Rand, tier, focus string) *vfPlan {
 		}
 	}
 	add(vfStep{Op: "heal"})
+	if focus == "C03" && p.Cfg.AwsRoles && chance(r, 0.3) {
+		// the server runs in a zone with daylight saving time; a cloud-role certificate is requested the day before the
+		// clocks go back (2000-10-29 in New York) - and at other times of the year
+		p.Cfg.TZ = "America/New_York"
+		add(vfStep{Op: "quiesce_daemon"})
+		add(vfStep{Op: "advance", D: pick(r, []string{"7236h", "7236h", "2220h", "100h"})})
+		add(vfStep{Op: "awsrole", A: "AKIAROLE1", B: "user_p256_1"})
+	}
 	return p
 }
 
